@@ -119,7 +119,10 @@ def contract_call(ip, f, q, con, arguments):
     if lem is not None:
         from .loops import NS
         for nm, fml in _clauses(lem(SV(c.heap0), s0, NS(ip, dict(ip.frames[-1].locals))), "lemma"):
-            c.assume(fml)
+            if nm.startswith("prove:"):
+                c.prove(f"{ip.frames[-1].qual}/call:{q.split(':')[1]}/lemma:{nm[6:]}", fml, kind="lemma")
+            else:
+                c.assume(fml)
     pre = con.requires(s0, **a) if con.requires else True
     for nm, fml in _clauses(pre, "requires"):
         c.prove(f"{ip.frames[-1].qual}/call:{q.split(':')[1]}/{nm}", fml, kind="call-pre")
@@ -128,9 +131,12 @@ def contract_call(ip, f, q, con, arguments):
         m = con.decreases(s0, **a)
         c.prove(f"{ip.frames[-1].qual}/call:{q.split(':')[1]}/decreases", z3.And(m >= 0, m < c.task.rec_measure), kind="termination")
     # exceptional outcomes
-    for (cls, cond, post) in con.raises:
-        b = cond(s0, **a)
-        if c.branch(b, "raises:" + cls.__name__):
+    conds = [cond(s0, **a) for (cls, cond, post) in con.raises]
+    for ri, (cls, cond, post) in enumerate(con.raises):
+        b = conds[ri]
+        # several classes under the same condition: the contract leaves open which one is raised
+        later_same = any(z3.is_expr(b) and z3.is_expr(conds[rj]) and z3.eq(b, conds[rj]) for rj in range(ri + 1, len(conds)))
+        if c.branch(b, "raises:" + cls.__name__) and (not later_same or c.branch(c.fresh("pick_" + cls.__name__, B), "pick")):
             if post is not None:
                 _havoc_frame(ip, con, s0, a)
                 c.assume(smt.conj([x for _, x in _clauses(post(s0, c.sv(), **a), "rpost")]))
